@@ -591,8 +591,19 @@ class SpecMixin(object):
         return st
 
     # ------------------------------------------------------------------ call by contract
+    def use_axioms(self, c):
+        for g in c.axioms:
+            if ('axg', g) in self.axioms_used:
+                continue
+            self.axioms_used.add(('axg', g))
+            es = State()
+            es.old = es
+            for text in self.spec.axioms[g]:
+                self.global_axioms.append(self.spb(text, es))
+
     def call_contract(self, st, c, args, kw, node, recv=None, star=None):
         self.used_contracts.add(c.qual)
+        self.use_axioms(c)
         names, defaults, vararg, kwarg, fi = self.signature(c)
         args = list(args)
         kw = dict(kw)
